@@ -111,24 +111,24 @@ func c05FixedLists() [][]*zipuFile {
 // be refused by CheckZip / Unzip on that ground.  This class was missing: the random lists carry
 // contents of a few bytes (over-limit sizes there are declared sizes only, which Create refuses), and
 // the fixed lists had the large contents only in root files or in files with unrelated names.
-// Contents are honest zero bytes (short `z<N>` on the op line).  all = every placement at both sizes
-// (oracle, thorough generator); otherwise the at-limit size only where the limit applies (the quick
-// generator pays about 1.5 s of model time per 16 MiB archive).
-func c05SizeLimitLists(all bool) [][]*zipuFile {
+// Contents are honest zero bytes (short `z<N>` on the op line).  A 16 MiB archive costs about 1.5 s of
+// model time and 1 s of implementation time in the correspondence run but only about 0.3 s in the
+// oracle, so: quick generator = the over-limit size at three placements away from the root (the root
+// placements are in c05FixedLists and in the random lists); oracle = every placement over the limit,
+// the root ones also at the limit; thorough = every placement at limit-1, limit, limit+1.
+func c05SizeLimitLists(oracle bool) [][]*zipuFile {
 	zeros := func(p string, n int) *zipuFile { return &zipuFile{path: p, mode: 'r', size: int64(n), content: make([]byte, n)} }
 	small := func(p, c string) *zipuFile { return &zipuFile{path: p, mode: 'r', size: int64(len(c)), content: []byte(c)} }
 	gomod := small("go.mod", "module example.com/m\n")
-	places := []string{
-		"LICENSE", "sub/LICENSE", "a/b/LICENSE", "LICENSE/x.txt", "license", "LICENSE.txt", "sub/xLICENSE",
-		"go.mod", "sub/go.mod", "go.mod/x.go", "sub/go.mod.txt",
-	}
-	if all || thorough {
-		places = append(places, "sub/LICENSE/y", "sub/License", "sub/LICENSE.md", "vendor/LICENSE", "go.mod.bak", "a/go.mod/b/y.go", "GO.MOD", "sub/Go.mod")
+	places := []string{"sub/LICENSE", "LICENSE/x.txt", "go.mod/x.go"}
+	if oracle || thorough {
+		places = append(places, "LICENSE", "a/b/LICENSE", "license", "LICENSE.txt", "sub/xLICENSE", "sub/LICENSE/y", "sub/License", "sub/LICENSE.md", "vendor/LICENSE",
+			"go.mod", "sub/go.mod", "sub/go.mod.txt", "go.mod.bak", "a/go.mod/b/y.go", "GO.MOD", "sub/Go.mod")
 	}
 	var out [][]*zipuFile
 	for _, p := range places {
 		sizes := []int{zipu16M + 1}
-		if all || thorough || p == "LICENSE" || p == "go.mod" {
+		if p == "LICENSE" || p == "go.mod" {
 			sizes = []int{zipu16M, zipu16M + 1}
 		}
 		if thorough {
@@ -181,20 +181,17 @@ func c05FoldOrbits() [][]rune {
 // zipuFoldSweep covers the ASCII letters only, and the random lists meet a non-ASCII pair only through
 // three scenario lists that also contain other invalid names most of the time, so Create (and with it
 // the restrictions clause) was practically never reached with one.
-// all = every orbit (oracle: an implementation-only case costs microseconds; thorough generator);
-// otherwise the structurally special orbits -- more than two members, a member in ASCII, members of
-// different UTF-8 length -- and a random sample of the rest.
-func c05FoldOrbitLists(r *Rand, all bool) [][]*zipuFile {
+// Oracle and thorough generator: every orbit, every ordered pair, all three positions (an
+// implementation-only case costs microseconds).  Quick generator (a model evaluation per op, and the
+// op budget is shared with the random lists): the structurally special orbits -- more than two
+// members, or a member in ASCII -- and a random sample of the rest, one position per ordered pair.
+func c05FoldOrbitLists(r *Rand, oracle bool) [][]*zipuFile {
 	gomod := &zipuFile{path: "go.mod", mode: 'r', size: 21, content: []byte("module example.com/m\n")}
+	full := oracle || thorough
 	var out [][]*zipuFile
 	for _, orb := range c05FoldOrbits() {
 		special := len(orb) > 2 || orb[0] < utf8.RuneSelf
-		for _, x := range orb {
-			if utf8.RuneLen(x) != utf8.RuneLen(orb[0]) {
-				special = true
-			}
-		}
-		if !(all || thorough || special || r.Chance(8)) {
+		if !(full || special || r.Chance(4)) {
 			continue
 		}
 		for i, a := range orb {
@@ -203,11 +200,16 @@ func c05FoldOrbitLists(r *Rand, all bool) [][]*zipuFile {
 					continue
 				}
 				sa, sb := string(a), string(b)
-				for _, pr := range [][2]string{
+				prs := [][2]string{
 					{"units/" + sa + ".go", "units/" + sb + ".go"},
 					{sa + "it/a.go", sb + "it/b.go"},
 					{"me" + sa + "sage.go", "me" + sb + "sage.go"},
-				} {
+				}
+				if !full {
+					k := r.Intn(len(prs))
+					prs = prs[k : k+1]
+				}
+				for _, pr := range prs {
 					out = append(out, []*zipuFile{gomod,
 						{path: pr[0], mode: 'r', size: 1, content: []byte("x")}, {path: pr[1], mode: 'r', size: 1, content: []byte("y")}})
 				}
